@@ -146,15 +146,37 @@ func C16(p *core.Program, r *core.Report) {
 		}
 		r.Add("Q2", "numbered links are collected only with a parsed, same-host, http(s) target", p.Pos(gp.Pos()), nURL >= 2 && bad == 0, fmt.Sprintf("%d paths record a link URL, %d without the full validation", nURL, bad), wit...)
 	}
-	// all PageInfo.URL sources in the module
+	// all PageInfo.URL sources in the module, per analysis unit (exported function with its
+	// unexported helpers expanded, so that a site is named and judged in the context of its
+	// exported caller however the helpers are cut)
+	docURL := map[string]string{ // the current document's URL as the unit receives it
+		"internal/pagination/parser.DetectParamInfo":                "url.URL.String(url.ParseRequestURI($1)#0)",
+		"(*internal/pagination/info.PageParamInfo).InsertFirstPage": "$1",
+	}
 	reviewedDoc := map[string]string{
-		"internal/pagination/parser.newDetectionStateFromMonotonicNumbers": "two-page documents: the current document's URL stands in for the plain number (the current page is filtered again in FindPagination, Q3)",
-		"(*internal/pagination/info.PageParamInfo).InsertFirstPage":        "inserts the current document as first page (filtered in FindPagination, Q3)",
+		"internal/pagination/parser.DetectParamInfo":                "two-page documents: the current document's URL stands in for the plain number (the current page is filtered again in FindPagination, Q3)",
+		"(*internal/pagination/info.PageParamInfo).InsertFirstPage": "inserts the current document as first page (filtered in FindPagination, Q3)",
+	}
+	var gpOrig *ssa.Function
+	if gp != nil {
+		gpOrig = p.Original(gp)
+	}
+	var pagUnits []*ssa.Function
+	for _, u := range units(p) {
+		if strings.Contains(core.FnPkgPath(p.Original(u)), "/internal/pagination") {
+			pagUnits = append(pagUnits, u)
+		}
 	}
 	nSrc := 0
-	for _, fn := range p.ModFunctions(false) {
-		if !strings.Contains(core.FnPkgPath(fn), "/internal/pagination") {
-			continue
+	for _, fn := range pagUnits {
+		key := unitName(p, fn)
+		inGP := map[*ssa.BasicBlock]bool{}
+		for _, reg := range p.InlineRegions(fn) {
+			if reg.Callee == gpOrig {
+				for b := range reg.Blocks {
+					inGP[b] = true
+				}
+			}
 		}
 		for _, b := range fn.Blocks {
 			for _, in := range b.Instrs {
@@ -168,20 +190,19 @@ func C16(p *core.Program, r *core.Report) {
 				}
 				nSrc++
 				v := c.Of(st.Val)
-				key := core.ShortKey(fn)
 				class := ""
 				switch {
 				case v == `""`:
 					class = "empty"
-				case strings.HasSuffix(fn.String(), "getPageInfoAndText"):
+				case gpOrig != nil && (p.Original(fn) == gpOrig || inGP[b]):
 					class = "validated anchor (see previous obligation)"
 				case isPageInfoURLCopy(st.Val, map[ssa.Value]bool{}):
 					class = "copy of another PageInfo.URL"
-				case reviewedDoc[key] != "" && (v == "url.URL.String($2)" || v == "$1"):
+				case reviewedDoc[key] != "" && v == docURL[key]:
 					class = "current document: " + reviewedDoc[key]
-				case strings.HasSuffix(fn.String(), "MonotonicPageInfoGroups).AddNumber") && v == "$2":
+				case strings.HasSuffix(key, "MonotonicPageInfoGroups).AddNumber") && v == "$2":
 					class = "parameter (call sites checked below)"
-				case strings.HasSuffix(fn.String(), "ListLinkInfo).Evaluate") && v == "$3":
+				case strings.HasSuffix(key, "ListLinkInfo).Evaluate") && v == "$3":
 					class = "parameter firstPageURL (call sites checked below)"
 				}
 				r.Add("Q2", fmt.Sprintf("%s: source of PageInfo.URL (%s)", key, shortVal(v)), p.Pos(st.Pos()), class != "", class)
@@ -189,33 +210,31 @@ func C16(p *core.Program, r *core.Report) {
 		}
 	}
 	r.Floor("Q2", 6)
-	for _, fn := range p.ModFunctions(false) {
+	for _, fn := range units(p) {
+		key := unitName(p, fn)
 		for _, call := range core.Calls(fn, func(ci ssa.CallInstruction) bool {
 			return core.IsCallTo(ci, "(*"+paginationPkg+"/info.MonotonicPageInfoGroups).AddNumber")
 		}) {
 			v := c.Of(call.Common().Args[2])
-			r.Add("Q2", core.ShortKey(fn)+": plain numbers carry no URL", p.Pos(call.Pos()), v == `""`, "AddNumber(_, "+v+")")
+			r.Add("Q2", key+": plain numbers carry no URL", p.Pos(call.Pos()), v == `""`, "AddNumber(_, "+v+")")
 		}
 		for _, call := range core.Calls(fn, func(ci ssa.CallInstruction) bool {
 			return core.IsCallTo(ci, "("+paginationPkg+"/info.ListLinkInfo).Evaluate")
 		}) {
 			a3 := call.Common().Args[3]
 			s0, isEmpty := core.ConstString(a3)
-			r.Add("Q2", core.ShortKey(fn)+": the first-page URL given to Evaluate is a collected page URL", p.Pos(call.Pos()), (isEmpty && s0 == "") || isPageInfoURLCopy(a3, map[ssa.Value]bool{}), shortVal(c.Of(a3)))
+			r.Add("Q2", key+": the first-page URL given to Evaluate is a collected page URL", p.Pos(call.Pos()), (isEmpty && s0 == "") || isPageInfoURLCopy(a3, map[ssa.Value]bool{}), shortVal(c.Of(a3)))
 		}
 		for _, call := range core.Calls(fn, func(ci ssa.CallInstruction) bool {
 			return core.IsCallTo(ci, "(*"+paginationPkg+"/info.PageParamInfo).InsertFirstPage", "(*"+paginationPkg+"/info.PageParamInfo).CanInsertFirstPage")
 		}) {
 			v := c.Of(call.Common().Args[1])
-			r.Add("Q2", core.ShortKey(fn)+": the inserted first page is the unmodified document URL", p.Pos(call.Pos()), v == `strings.TrimSuffix(url.URL.String($2),"/")`, core.Callee(call).Name()+"(_, "+v+")")
+			r.Add("Q2", key+": the inserted first page is the unmodified document URL", p.Pos(call.Pos()), docURL[key] != "" && v == `strings.TrimSuffix(`+docURL[key]+`,"/")`, core.Callee(call).Name()+"(_, "+v+")")
 		}
 	}
 	// NextPagingURL only receives PageInfo URLs
 	nNext := 0
-	for _, fn := range p.ModFunctions(false) {
-		if !strings.Contains(core.FnPkgPath(fn), "/internal/pagination") {
-			continue
-		}
+	for _, fn := range pagUnits {
 		for _, b := range fn.Blocks {
 			for _, in := range b.Instrs {
 				st, ok := in.(*ssa.Store)
@@ -225,7 +244,7 @@ func C16(p *core.Program, r *core.Report) {
 				nNext++
 				v := c.Of(st.Val)
 				ok2 := v == `""` || isPageInfoURLCopy(st.Val, map[ssa.Value]bool{}) || strings.HasSuffix(v, ".NextPagingURL")
-				r.Add("Q2", core.ShortKey(fn)+": NextPagingURL is the URL of a collected page", p.Pos(st.Pos()), ok2, shortVal(v))
+				r.Add("Q2", unitName(p, fn)+": NextPagingURL is the URL of a collected page", p.Pos(st.Pos()), ok2, shortVal(v))
 			}
 		}
 	}
